@@ -497,6 +497,37 @@ def boxcount(run, fx):
         run.held('LOADERSIB', inst, ctor.loc(pe), '%d read_glyph calls, %s contract, total `%s`' % (len(calls), 'accumulating' if accum else 'per-glyph', vname))
 
 
+MUTABLE_OK = {
+    'graphite2::Face': 'lazily created parts of the face (glyph cache, cmap, name table, logger), each behind its own rule (C08 LAZYFILL, C09 NAMEPRELOAD)',
+    'graphite2::Face::Table': 'the buffer pointer a const Table hands over when it is moved from (C16 TABLETS)',
+    'graphite2::vm::Machine::Code': 'load status / ownership flag of a code object, set while it is built',
+}
+
+
+def nomutable(run, fx):
+    """LOADERSIB: preloading calls the glyph loader in a different ORDER than lazy loading (all glyphs, then all boxes, against glyph and
+    box alternating), so a loader call must not remember anything from the call before it: no class of the library outside the tabled
+    ones has a `mutable` member (the table lists the three classes that have one today, each with the rule that covers it).  A
+    `mutable` cursor in GlyphCache::Loader makes every preloaded glyph get the last glyph's box."""
+    n, bad = 0, []
+    for k, r in sorted(fx.raw['records'].items()):
+        if not (r.get('file') or '').startswith('src/') or '_utf_iterator' in k:
+            continue
+        n += 1
+        m = [f['n'] for f in r['fields'] if f.get('mut')]
+        if m and k not in MUTABLE_OK:
+            bad.append((k, m, r))
+    inst = 'no class outside the tabled ones has a mutable member'
+    if n < 60:
+        run.broken('LOADERSIB', inst, 'only %d library classes seen' % n)
+    elif bad:
+        k, m, r = bad[0]
+        run.violated('LOADERSIB', inst, '%s:%s' % (r.get('file'), r.get('ln')), '%s has the mutable member(s) %s: a const member function can now carry state from one call to the next, so results '
+                     'depend on the order of the calls -- which differs between the face options (preloaded / lazy glyphs, cached / direct cmap)' % (k, m))
+    else:
+        run.held('LOADERSIB', inst, '', '%d classes; mutable members only in %s' % (n, sorted(MUTABLE_OK)))
+
+
 def boxall(run, fx):
     """LOADERSIB: a preloaded face has the collision box of EVERY glyph the lazy loader would read, glyph 0 (.notdef) included: the loop
     of the preloading constructor that stores `_boxes[gid]` starts at 0 (the glyph loop above it starts at 1 only because glyph 0 is
@@ -545,6 +576,7 @@ def run(run):
         boxsize(run, fx)
         boxcount(run, fx)
         boxall(run, fx)
+        nomutable(run, fx)
     except AnalysisBroken as ex:
         run.broken('LOADERSIB', 'box records: two rectangles per sub-box at every site', str(ex))
     lazyaccess(run, fx)
